@@ -133,6 +133,12 @@ def make_case(rng):
                                                                         else ["stream_frames_gen"]),
            "frame_size": rng.choice([1, 5, 250]), "preset": preset, "delimited": True, "logical": pj.FLAT_LOGICAL[phys],
            "generalized": True, "rdf_star": True, "ns": False, "stream_name": ""}
+    def plain(t):
+        return t[0] in ("iri", "bnode", "default") or (t[0] == "lit")
+    if table == "prefix" and all(plain(t) for s_ in stmts for t in s_) and \
+            all(s_[0][0] != "lit" and s_[1][0] == "iri" and (len(s_) < 4 or s_[3][0] != "lit") for s_ in stmts) and rng.random() < .5:
+        # plain RDF 1.1 statements: the stream does not declare RDF-star / generalized statements
+        cfg["generalized"] = cfg["rdf_star"] = False
     if integ == "generic" and phys != 3 and rng.random() < .2:
         cfg["entry"] = "low-level-encode"
     elif rng.random() < .25:
